@@ -188,8 +188,10 @@ def expected(spec, i):
     for f in eff["fields"]:
         d = DT[f["ann"]]
         fk = f["field"]
-        if f["style"] != "kw" and fk.get("dtype_kwargs"):
-            raise HarnessError("C16 generator: dtype_kwargs outside style kw")
+        if (f["style"] == "kw") != bool(fk.get("dtype_kwargs")):
+            # a diamond / mixin combined the bare `pd.DatetimeTZDtype` annotation of one class with the Field of
+            # another (or vice versa): not a valid dtype declaration, outside the property's domain
+            return {"error": "outside-domain", "why": "dtype_kwargs and parametrised annotation come from different classes"}
         ent = {"name": f["name"], "attr": f["attr"], "dt": f["ann"], "kind": d["kind"], "phys": d["phys"], "field": fk,
                "required": not f["optional"], "checks": col_checks[repr(f["name"])],
                "parsers": col_parsers[repr(f["name"])], "style": f["style"]}
